@@ -56,9 +56,17 @@ class UImpl:              # structurally implements UProto, no inheritance
         return 'UImpl()'
 
 
+FOREIGN: list = []        # special methods outside the read-only protocol that something invoked on a spy
+
+
 class _Rec:
     def _r(self, what):
         READS.append((type(self).__name__, what))
+
+    def __bool__(self):
+        # same answer as the default (len() != 0), but *observable*: a check has no business asking
+        FOREIGN.append((type(self).__name__, '__bool__'))
+        return len(self) != 0
 
     def _it(self, src):
         """Iterate ``src`` recording one read per item handed out (a full walk costs len reads)."""
@@ -280,6 +288,15 @@ class UGenList2(List[T]):
 
     def __repr__(self):
         return f'UGenList2({list.__repr__(self)})'
+
+
+class UTagged(UGenList[str], Generic[T]):
+    """Re-uses the type variable of its (already subscripted) generic base for something else:
+    UTagged[int] is still a list of *str* -- the binding T=int of the outer level must not leak
+    into the List[T] of UGenList."""
+
+    def __repr__(self):
+        return f'UTagged({list.__repr__(self)})'
 
 
 class UIntList(List[int]):
